@@ -49,6 +49,7 @@ C13OK(e) ==
   /\ (e.act = "Quantize" /\ e.outcome = "ok") => \A k \in 1..Len(e.preserved) : e.preserved[k].weight_same /\ e.preserved[k].bias_same
   /\ (e.act = "RaiseIn") => e.raised = TRUE
   /\ (e.act = "LibCall") => (e.outcome = "ok" /\ e.inputs_unchanged /\ e.state_before = e.state_digest)   \* LibraryCallsPure
+  /\ (e.act = "ForeignBatch") => (e.outcome = "ok" /\ e.ours_unchanged)
   /\ (e.act \in {"Freeze", "Save", "DeepCopy"} /\ e.outcome = "ok") => TRUE
 
 (* ======================== C08: quantize() and the forward recipe ================================== *)
@@ -202,7 +203,8 @@ CalibRecOK(e, r, mm) ==
 CalibOK(e) ==
   /\ e.outcome = "ok"
   /\ (e.n_ctx = 1 /\ Len(qargs.ms) = 1) => \A k \in 1..Len(e.calib) : CalibRecOK(e, e.calib[k], MomInt(qargs.ms[1]))
-C12OK(e) == e.act = "CalibBatch" => CalibOK(e)
+C12OK(e) == /\ e.act = "CalibBatch" => CalibOK(e)
+            /\ e.act = "ForeignBatch" => (e.outcome = "ok" /\ e.ours_unchanged)      \* another model's batches do not touch our scales
 \* deviations of the pinned tree
 InputMomentumSig(e) ==
   e.act = "CalibBatch" /\ e.outcome = "ok" /\ e.n_ctx = 1 /\ Len(qargs.ms) = 1 /\
